@@ -54,7 +54,9 @@ Inductive cev :=
 | CLost (r : nat)                         (* connect_req overwritten while r was pending *)
 | CClosed                                 (* close_cb *)
 | CReg (n : nat)
-| CUsable (b : bool).                     (* at a connect callback with status 0: the stream has been opened
+| CUsable (b : bool)
+| CWcb                                    (* a write callback of the script (it runs the behaviour script, too) *)
+| CScb.                                   (* the shutdown callback of the script *)                     (* at a connect callback with status 0: the stream has been opened
                                              (uv_is_readable / uv_is_writable), unless the script shut it down *)                         (* loop->active_reqs.count observed after an operation *)
 
 Inductive cop :=
@@ -77,6 +79,19 @@ Record corc := mkO {
   o_ready : list bool       (* per loop iteration: event reported for the descriptor *)
 }.
 
+Record aux := mkA {
+  a_wr : option bool;     (* UV_HANDLE_READABLE | UV_HANDLE_WRITABLE as far as the scripts rely on them:
+                             Some false = not opened yet, Some true = set by uv__stream_open / maybe_new_socket,
+                             None = the script called uv_shutdown or uv_read_start (WRITABLE is cleared by
+                             the former, both by a read error): no further uv_write / uv_shutdown *)
+  a_wq : nat;             (* one-byte write requests in write_queue (waiting for the connect / for POLLOUT) *)
+  a_wc : nat;             (* write requests in write_completed_queue: their callback is owed *)
+  a_sh : bool;            (* uv__is_stream_shutting: shutdown_req != NULL *)
+  a_cn : bool             (* a connect callback has reported status 0: the scripts issue uv_write only
+                             while a connect is pending (the request is queued) or on such a stream (the
+                             one-byte write succeeds), so no request lingers in error state *)
+}.
+
 Record cst := mkCs {
   cs : cstream; co : corc; nreq : nat; ccbn : nat;
   cchain : list nat;      (* variant [cpfix] only: requests of uv_pipe_connect calls made while a
@@ -85,10 +100,7 @@ Record cst := mkCs {
                              notes/C07_fix_pipe_connect_ealready.diff *)
   creg : nat;             (* loop->active_reqs.count as far as this handle's connect requests go:
                              +1 at every uv__req_init, -1 at every uv__req_unregister *)
-  cwr : option bool       (* UV_HANDLE_READABLE | UV_HANDLE_WRITABLE as far as the scripts rely on them:
-                             Some false = not opened yet, Some true = set by uv__stream_open / maybe_new_socket,
-                             None = the script called uv_shutdown or uv_read_start (WRITABLE is cleared by
-                             the former, both by a read error): no further uv_write / uv_shutdown *)
+  cax : aux               (* write / shutdown side as far as the connect machinery depends on it *)
 }.
 
 Definition next_z (l : list Z) : Z * list Z := match l with [] => (0, []) | a :: r => (a, r) end.
@@ -104,41 +116,44 @@ Fixpoint connect_loop (l : list Z) : Z * list Z :=
 Definition pending (s : cstream) : bool := match c_req s with Some _ => true | None => false end.
 
 (* uv__stream_open(READABLE | WRITABLE) / maybe_new_socket's flags *)
+Definition ax_on (a : aux) : aux :=
+  mkA (match a_wr a with Some _ => Some true | None => None end) (a_wq a) (a_wc a) (a_sh a) (a_cn a).
+Definition ax_cn (a : aux) : aux := mkA (a_wr a) (a_wq a) (a_wc a) (a_sh a) true.
 Definition wr_on (w : option bool) : option bool := match w with Some _ => Some true | None => None end.
 Definition wr_is (w : option bool) : bool := match w with Some true => true | _ => false end.
 
-Definition upd_s (x : cst) (s : cstream) : cst := mkCs s (co x) (nreq x) (ccbn x) (cchain x) (cpfix x) (creg x) (cwr x).
+Definition upd_s (x : cst) (s : cstream) : cst := mkCs s (co x) (nreq x) (ccbn x) (cchain x) (cpfix x) (creg x) (cax x).
 
 Definition tcp_connect (x : cst) : cst * list cev :=
   let s := cs x in let r := nreq x in
-  let out (s : cstream) (o : corc) (wr : option bool) :=
+  let out (s : cstream) (o : corc) (wr : aux) :=
       (mkCs (mkC (c_tcp s) (c_fd s) (Some r) (c_delayed s) true
                  (if c_delayed s =? 0 then c_fed s else true) (c_closing s) (c_closed s))
             o (S r) (ccbn x) (cchain x) (cpfix x) (S (creg x)) wr, [CRet r 0]) in
   match c_req s with
-  | Some _ => (mkCs s (co x) (S r) (ccbn x) (cchain x) (cpfix x) (creg x) (cwr x), [CRet r UV_EALREADY])
+  | Some _ => (mkCs s (co x) (S r) (ccbn x) (cchain x) (cpfix x) (creg x) (cax x), [CRet r UV_EALREADY])
   | None =>
-    if negb (c_delayed s =? 0) then out s (co x) (cwr x) else
+    if negb (c_delayed s =? 0) then out s (co x) (cax x) else
     let '(serr, so') := if c_fd s then (0, o_sock (co x)) else next_z (o_sock (co x)) in
     if negb (serr =? 0) then
-      (mkCs s (mkO so' (o_conn (co x)) (o_so (co x)) (o_ready (co x))) (S r) (ccbn x) (cchain x) (cpfix x) (creg x) (cwr x), [CRet r serr])
+      (mkCs s (mkO so' (o_conn (co x)) (o_so (co x)) (o_ready (co x))) (S r) (ccbn x) (cchain x) (cpfix x) (creg x) (cax x), [CRet r serr])
     else
       let s1 := mkC (c_tcp s) true (c_req s) (c_delayed s) (c_pollout s) (c_fed s) (c_closing s) (c_closed s) in
       let (a, cn') := connect_loop (o_conn (co x)) in
       let o' := mkO so' cn' (o_so (co x)) (o_ready (co x)) in
-      if (a =? 0) || (a =? UV_EINPROGRESS) then out s1 o' (wr_on (cwr x))
+      if (a =? 0) || (a =? UV_EINPROGRESS) then out s1 o' (ax_on (cax x))
       else if a =? UV_ECONNREFUSED then
-        out (mkC (c_tcp s1) true (c_req s1) UV_ECONNREFUSED (c_pollout s1) (c_fed s1) (c_closing s1) (c_closed s1)) o' (wr_on (cwr x))
-      else (mkCs s1 o' (S r) (ccbn x) (cchain x) (cpfix x) (creg x) (wr_on (cwr x)), [CRet r a])
+        out (mkC (c_tcp s1) true (c_req s1) UV_ECONNREFUSED (c_pollout s1) (c_fed s1) (c_closing s1) (c_closed s1)) o' (ax_on (cax x))
+      else (mkCs s1 o' (S r) (ccbn x) (cchain x) (cpfix x) (creg x) (ax_on (cax x)), [CRet r a])
   end.
 
 Definition bind_busy (busy : bool) (x : cst) : cst * list cev :=
   let s := cs x in
   let '(serr, so') := if c_fd s then (0, o_sock (co x)) else next_z (o_sock (co x)) in
   let o' := mkO so' (o_conn (co x)) (o_so (co x)) (o_ready (co x)) in
-  if negb (serr =? 0) then (mkCs s o' (nreq x) (ccbn x) (cchain x) (cpfix x) (creg x) (cwr x), [])
+  if negb (serr =? 0) then (mkCs s o' (nreq x) (ccbn x) (cchain x) (cpfix x) (creg x) (cax x), [])
   else (mkCs (mkC (c_tcp s) true (c_req s) (if busy then UV_EADDRINUSE else 0) (c_pollout s) (c_fed s) (c_closing s) (c_closed s))
-             o' (nreq x) (ccbn x) (cchain x) (cpfix x) (creg x) (cwr x), []).
+             o' (nreq x) (ccbn x) (cchain x) (cpfix x) (creg x) (cax x), []).
 
 (* the part of uv_pipe_connect2 after "out:" and the error branch of uv_pipe_connect:
    delayed_error = err; connect_req = req; feed when err != 0 *)
@@ -159,7 +174,7 @@ Definition pipe_connect2_body (x : cst) (flags : Z) (namelen : nat) (nul : bool)
   let '(serr, so') := if new_sock then next_z (o_sock (co x)) else (0, o_sock (co x)) in
   if serr <? 0 then
     let (s', e) := pipe_out s r serr in
-    (mkCs s' (mkO so' (o_conn (co x)) (o_so (co x)) (o_ready (co x))) (nreq x) (ccbn x) (cchain x) (cpfix x) (S (creg x)) (cwr x), e, None)
+    (mkCs s' (mkO so' (o_conn (co x)) (o_so (co x)) (o_ready (co x))) (nreq x) (ccbn x) (cchain x) (cpfix x) (S (creg x)) (cax x), e, None)
   else
     let s1 := mkC (c_tcp s) true (c_req s) (c_delayed s) (c_pollout s) (c_fed s) (c_closing s) (c_closed s) in
     let (a, cn') := connect_loop (o_conn (co x)) in
@@ -169,19 +184,19 @@ Definition pipe_connect2_body (x : cst) (flags : Z) (namelen : nat) (nul : bool)
       (* since /repo ff67af1: uv__stream_open (READABLE | WRITABLE) if (new_sock || neither flag is set yet);
          before it only if (new_sock), so a retry after a failed attempt stayed unreadable and unwritable *)
       let (s', e) := pipe_out s2 r 0 in
-      (mkCs s' o' (nreq x) (ccbn x) (cchain x) (cpfix x) (S (creg x)) (wr_on (cwr x)), e, None)
+      (mkCs s' o' (nreq x) (ccbn x) (cchain x) (cpfix x) (S (creg x)) (ax_on (cax x)), e, None)
     else
-      let (s', e) := pipe_out s1 r a in (mkCs s' o' (nreq x) (ccbn x) (cchain x) (cpfix x) (S (creg x)) (cwr x), e, None).
+      let (s', e) := pipe_out s1 r a in (mkCs s' o' (nreq x) (ccbn x) (cchain x) (cpfix x) (S (creg x)) (cax x), e, None).
 
 Definition pipe_connect2 (x : cst) (flags : Z) (namelen : nat) (nul : bool) : cst * list cev :=
   let r := nreq x in
   if cpfix x && pending (cs x) then      (* fix: if (handle->connect_req != NULL) return UV_EALREADY; *)
-    (mkCs (cs x) (co x) (S r) (ccbn x) (cchain x) (cpfix x) (creg x) (cwr x), [CRet r UV_EALREADY])
+    (mkCs (cs x) (co x) (S r) (ccbn x) (cchain x) (cpfix x) (creg x) (cax x), [CRet r UV_EALREADY])
   else
   let '(x', e, res) := pipe_connect2_body x flags namelen nul in
   match res with
-  | Some err => (mkCs (cs x') (co x') (S r) (ccbn x') (cchain x') (cpfix x') (creg x') (cwr x'), e ++ [CRet r err])
-  | None => (mkCs (cs x') (co x') (S r) (ccbn x') (cchain x') (cpfix x') (creg x') (cwr x'), e ++ [CRet r 0])
+  | Some err => (mkCs (cs x') (co x') (S r) (ccbn x') (cchain x') (cpfix x') (creg x') (cax x'), e ++ [CRet r err])
+  | None => (mkCs (cs x') (co x') (S r) (ccbn x') (cchain x') (cpfix x') (creg x') (cax x'), e ++ [CRet r 0])
   end.
 
 (* void uv_pipe_connect: an error return of uv_pipe_connect2 becomes a delayed error *)
@@ -189,13 +204,13 @@ Definition pipe_connect (x : cst) (namelen : nat) : cst * list cev :=
   let r := nreq x in
   if cpfix x && pending (cs x) then      (* fix: UV_EALREADY from uv_pipe_connect2; the request is linked
                                             behind the pending one and told later *)
-    (mkCs (cs x) (co x) (S r) (ccbn x) (cchain x ++ [r]) (cpfix x) (S (creg x)) (cwr x), [CRet r 0])
+    (mkCs (cs x) (co x) (S r) (ccbn x) (cchain x ++ [r]) (cpfix x) (S (creg x)) (cax x), [CRet r 0])
   else
   let '(x', e, res) := pipe_connect2_body x 0 namelen false in
   match res with
   | Some err => let (s', e') := pipe_out (cs x') r err in
-                (mkCs s' (co x') (S r) (ccbn x') (cchain x') (cpfix x') (S (creg x')) (cwr x'), e ++ e' ++ [CRet r 0])
-  | None => (mkCs (cs x') (co x') (S r) (ccbn x') (cchain x') (cpfix x') (creg x') (cwr x'), e ++ [CRet r 0])
+                (mkCs s' (co x') (S r) (ccbn x') (cchain x') (cpfix x') (S (creg x')) (cax x'), e ++ e' ++ [CRet r 0])
+  | None => (mkCs (cs x') (co x') (S r) (ccbn x') (cchain x') (cpfix x') (creg x') (cax x'), e ++ [CRet r 0])
   end.
 
 (* uv_close on the stream: uv__io_close (stop, leave the pending queue), descriptor closed *)
@@ -212,14 +227,23 @@ Definition cclose (x : cst) : cst * list cev :=
    it too.  The write and shutdown requests themselves are C05's; the harness keeps them out
    of the request count it reports. *)
 Definition aux_op (x : cst) (o : cop) : cst * list cev :=
-  let s := cs x in
-  if c_closing s || negb (c_fd s) || pending s then (x, []) else
+  let s := cs x in let a := cax x in
+  if c_closing s || negb (c_fd s) then (x, []) else
+  let with_cs (s' : cstream) (a' : aux) := mkCs s' (co x) (nreq x) (ccbn x) (cchain x) (cpfix x) (creg x) a' in
   let fed := mkC (c_tcp s) (c_fd s) (c_req s) (c_delayed s) (c_pollout s) true (c_closing s) (c_closed s) in
+  let armed := mkC (c_tcp s) (c_fd s) (c_req s) (c_delayed s) true (c_fed s) (c_closing s) (c_closed s) in
   match o with
-  | CWrite => if wr_is (cwr x) then (upd_s x fed, []) else (x, [])   (* not writable: UV_EPIPE, nothing happens *)
-  | CShut => if wr_is (cwr x) then (mkCs fed (co x) (nreq x) (ccbn x) (cchain x) (cpfix x) (creg x) None, [])
-             else (x, [])                                             (* UV_ENOTCONN *)
-  | CRead => (mkCs s (co x) (nreq x) (ccbn x) (cchain x) (cpfix x) (creg x) None, [])
+  | CWrite =>
+      if negb (wr_is (a_wr a)) || negb (pending s || a_cn a) then (x, [])   (* UV_EPIPE / not issued by the scripts *)
+      else if pending s then (with_cs s (mkA (a_wr a) (S (a_wq a)) (a_wc a) (a_sh a) (a_cn a)), [])   (* "still connecting, do nothing" *)
+      else if Nat.eqb (a_wq a) 0 then (with_cs fed (mkA (a_wr a) 0 (S (a_wc a)) (a_sh a) (a_cn a)), [])   (* written (or failed) at once *)
+      else (with_cs armed (mkA (a_wr a) (S (a_wq a)) (a_wc a) (a_sh a) (a_cn a)), [])      (* queued, POLLOUT *)
+  | CShut =>
+      if negb (wr_is (a_wr a)) || a_sh a then (x, [])                     (* UV_ENOTCONN *)
+      else
+        (* since /repo 83eb44c the watcher is fed only if (connect_req == NULL && write_queue empty) *)
+        (with_cs (if negb (pending s) && Nat.eqb (a_wq a) 0 then fed else s) (mkA None (a_wq a) (a_wc a) true (a_cn a)), [])
+  | CRead => if pending s then (x, []) else (with_cs s (mkA None (a_wq a) (a_wc a) (a_sh a) (a_cn a)), [])
   | _ => (x, [])
   end.
 
@@ -248,16 +272,56 @@ Fixpoint cexec_cb (x : cst) (os : list cop) : cst * list cev :=
   end.
 
 Definition run_cb (x : cst) (beh : nat -> list cop) : cst * list cev :=
-  cexec_cb (mkCs (cs x) (co x) (nreq x) (S (ccbn x)) (cchain x) (cpfix x) (creg x) (cwr x)) (beh (ccbn x)).
+  cexec_cb (mkCs (cs x) (co x) (nreq x) (S (ccbn x)) (cchain x) (cpfix x) (creg x) (cax x)) (beh (ccbn x)).
 
 (* variant [cpfix]: the requests that were linked behind the completed one get their
    callback (UV_EALREADY, or UV_ECANCELED when the handle is destroyed), in call order *)
 Fixpoint reject (ch : list nat) (st : Z) (src : csrc) (x : cst) (beh : nat -> list cop) : cst * list cev :=
   match ch with
   | [] => (x, [])
-  | q :: t => let (x1, e1) := run_cb (mkCs (cs x) (co x) (nreq x) (ccbn x) (cchain x) (cpfix x) (pred (creg x)) (cwr x)) beh in
+  | q :: t => let (x1, e1) := run_cb (mkCs (cs x) (co x) (nreq x) (ccbn x) (cchain x) (cpfix x) (pred (creg x)) (cax x)) beh in
               let (x2, e2) := reject t st src x1 beh in (x2, CCb q st src :: e1 ++ e2)
   end.
+
+(* a write callback runs the behaviour script, except that it issues no uv_write itself: while
+   uv__write_callbacks is at work cancelled requests may still count in write_queue_size, and
+   what a new write does then is the write path's (C05's) business *)
+Definition run_cb_w (x : cst) (beh : nat -> list cop) : cst * list cev :=
+  cexec_cb (mkCs (cs x) (co x) (nreq x) (S (ccbn x)) (cchain x) (cpfix x) (creg x) (cax x))
+           (map (fun o => match o with CWrite => CRun | _ => o end) (beh (ccbn x))).
+
+(* uv__write_callbacks over [n] completed requests *)
+Fixpoint write_cbs (n : nat) (x : cst) (beh : nat -> list cop) : cst * list cev :=
+  match n with
+  | O => (x, [])
+  | S k => let (x1, e1) := run_cb_w x beh in
+           let (x2, e2) := write_cbs k x1 beh in (x2, CWcb :: e1 ++ e2)
+  end.
+
+(* uv__drain under the condition both callers now use: no connect pending and both write
+   queues empty.  POLLOUT is stopped and a pending shutdown is carried out (its callback runs). *)
+Definition drain_if_idle (x : cst) : cst * list cev :=
+  let s := cs x in let a := cax x in
+  if negb (pending s) && Nat.eqb (a_wq a) 0 && Nat.eqb (a_wc a) 0 then
+    (mkCs (mkC (c_tcp s) (c_fd s) (c_req s) (c_delayed s) false (c_fed s) (c_closing s) (c_closed s))
+          (co x) (nreq x) (ccbn x) (cchain x) (cpfix x) (creg x) (mkA (a_wr a) 0 0 false (a_cn a)),
+     if a_sh a then [CScb] else [])
+  else (x, []).
+
+(* all requests of both write queues get their callback (flush + uv__write_callbacks) *)
+Definition flush_cbs (x : cst) (beh : nat -> list cop) : cst * list cev :=
+  let a := cax x in
+  write_cbs (a_wq a + a_wc a)
+            (mkCs (cs x) (co x) (nreq x) (ccbn x) (cchain x) (cpfix x) (creg x) (mkA (a_wr a) 0 0 (a_sh a) (a_cn a))) beh.
+
+(* the tail of uv__stream_connect after the callback, if the descriptor is still there and the
+   connect failed: the queued writes are cancelled and have their callbacks; a pending shutdown
+   is carried out unless a callback started another connect (or closed the handle) *)
+Definition after_failed_connect (failed : bool) (x : cst) (beh : nat -> list cop) : cst * list cev :=
+  if failed && c_fd (cs x) then
+    let (x1, e1) := flush_cbs x beh in
+    if a_sh (cax x1) && c_fd (cs x1) then let (x2, e2) := drain_if_idle x1 in (x2, e1 ++ e2) else (x1, e1)
+  else (x, []).
 
 (* uv__stream_connect *)
 Definition stream_connect (x : cst) (beh : nat -> list cop) : cst * list cev :=
@@ -272,22 +336,34 @@ Definition stream_connect (x : cst) (beh : nat -> list cop) : cst * list cev :=
       else
         let (e, so') := next_z (o_so (co x)) in
         (e, SrcSo, s, mkO (o_sock (co x)) (o_conn (co x)) so' (o_ready (co x))) in
-    if error =? UV_EINPROGRESS then (mkCs s1 o' (nreq x) (ccbn x) (cchain x) (cpfix x) (creg x) (cwr x), [])
+    if error =? UV_EINPROGRESS then (mkCs s1 o' (nreq x) (ccbn x) (cchain x) (cpfix x) (creg x) (cax x), [])
     else
-      let s2 := mkC (c_tcp s1) (c_fd s1) None (c_delayed s1) false (c_fed s1) (c_closing s1) (c_closed s1) in
-      let (x1, e1) := run_cb (mkCs s2 o' (nreq x) (ccbn x) [] (cpfix x) (pred (creg x)) (cwr x)) beh in
+      (* POLLOUT is stopped before the callback if (error < 0 || (write_queue empty && !shutting)) *)
+      let keep := negb (error <? 0) && (negb (Nat.eqb (a_wq (cax x)) 0) || a_sh (cax x)) in
+      let s2 := mkC (c_tcp s1) (c_fd s1) None (c_delayed s1) (if keep then c_pollout s1 else false)
+                    (c_fed s1) (c_closing s1) (c_closed s1) in
+      let (x1, e1) := run_cb (mkCs s2 o' (nreq x) (ccbn x) [] (cpfix x) (pred (creg x))
+                                   (if error =? 0 then ax_cn (cax x) else cax x)) beh in
       let (x2, e2) := reject (cchain x) UV_EALREADY SrcRejected x1 beh in
-      (x2, CCb r error src ::
-           (if error =? 0 then [CUsable (match cwr x with Some false => false | _ => true end)] else []) ++ e1 ++ e2)
+      let (x3, e3) := after_failed_connect (error <? 0) x2 beh in
+      (x3, CCb r error src ::
+           (if error =? 0 then [CUsable (match a_wr (cax x) with Some false => false | _ => true end)] else [])
+           ++ e1 ++ e2 ++ e3)
   end.
 
-(* uv__stream_io: a pending connect takes the event; otherwise POLLOUT with an empty
-   write queue ends in uv__drain, which stops POLLOUT *)
+(* uv__stream_io: a pending connect takes the event; otherwise uv__write sends the queued
+   one-byte writes (each finished request feeds the watcher), the write callbacks run, and
+   (since /repo 5ec9be1 only if no callback started a connect) with both queues empty uv__drain
+   stops POLLOUT and performs a pending shutdown *)
 Definition stream_io (x : cst) (beh : nat -> list cop) : cst * list cev :=
   match c_req (cs x) with
   | Some _ => stream_connect x beh
-  | None => let s := cs x in
-            (upd_s x (mkC (c_tcp s) (c_fd s) None (c_delayed s) false (c_fed s) (c_closing s) (c_closed s)), [])
+  | None => let s := cs x in let a := cax x in
+            let x0 := mkCs (mkC (c_tcp s) (c_fd s) None (c_delayed s) (c_pollout s)
+                                (c_fed s || negb (Nat.eqb (a_wq a) 0)) (c_closing s) (c_closed s))
+                           (co x) (nreq x) (ccbn x) (cchain x) (cpfix x) (creg x) (mkA (a_wr a) 0 (a_wq a + a_wc a) (a_sh a) (a_cn a)) in
+            let (x1, e1) := flush_cbs x0 beh in
+            let (x2, e2) := drain_if_idle x1 in (x2, e1 ++ e2)
   end.
 
 Definition unfeed (x : cst) : cst :=
@@ -310,16 +386,22 @@ Fixpoint drain (n : nat) (x : cst) (beh : nat -> list cop) : cst * list cev :=
 Definition destroy (x : cst) (beh : nat -> list cop) : cst * list cev :=
   let s := cs x in
   let s1 := mkC (c_tcp s) (c_fd s) None (c_delayed s) (c_pollout s) (c_fed s) true true in
-  match c_req s with
-  | Some r => let (x1, e1) := run_cb (mkCs s1 (co x) (nreq x) (ccbn x) [] (cpfix x) (pred (creg x)) (cwr x)) beh in
-              let (x2, e2) := reject (cchain x) UV_ECANCELED SrcCancel x1 beh in
-              (x2, CCb r UV_ECANCELED SrcCancel :: e1 ++ e2 ++ [CClosed])
-  | None => (upd_s x s1, [CClosed])
-  end.
+  let '(x2, ec) :=
+    match c_req s with
+    | Some r => let (x1, e1) := run_cb (mkCs s1 (co x) (nreq x) (ccbn x) [] (cpfix x) (pred (creg x)) (cax x)) beh in
+                let (x2, e2) := reject (cchain x) UV_ECANCELED SrcCancel x1 beh in
+                (x2, CCb r UV_ECANCELED SrcCancel :: e1 ++ e2)
+    | None => (mkCs s1 (co x) (nreq x) (ccbn x) (cchain x) (cpfix x) (creg x) (cax x), [])
+    end in
+  (* uv__stream_flush_write_queue(UV_ECANCELED); uv__write_callbacks; uv__drain *)
+  let (x3, e3) := flush_cbs x2 beh in
+  let a := cax x3 in
+  (mkCs (cs x3) (co x3) (nreq x3) (ccbn x3) (cchain x3) (cpfix x3) (creg x3) (mkA (a_wr a) (a_wq a) (a_wc a) false (a_cn a)),
+   ec ++ e3 ++ (if a_sh a then [CScb] else []) ++ [CClosed]).
 
 Definition run_iter (x : cst) (beh : nat -> list cop) : cst * list cev :=
   let (rdy, rd') := next_b (o_ready (co x)) in
-  let x0 := mkCs (cs x) (mkO (o_sock (co x)) (o_conn (co x)) (o_so (co x)) rd') (nreq x) (ccbn x) (cchain x) (cpfix x) (creg x) (cwr x) in
+  let x0 := mkCs (cs x) (mkO (o_sock (co x)) (o_conn (co x)) (o_so (co x)) rd') (nreq x) (ccbn x) (cchain x) (cpfix x) (creg x) (cax x) in
   let (x1, e1) := run_pending x0 beh in
   let (x2, e2) := if c_pollout (cs x1) && rdy && negb (c_closing (cs x1))
                   then stream_io x1 beh else (x1, []) in
@@ -341,7 +423,7 @@ Fixpoint crun (x : cst) (os : list cop) (beh : nat -> list cop) : cst * list cev
   end.
 
 Definition cinit (pfix : bool) (tcp : bool) (o : corc) : cst :=
-  mkCs (mkC tcp false None 0 false false false false) o 0 0 [] pfix 0 (Some false).
+  mkCs (mkC tcp false None 0 false false false false) o 0 0 [] pfix 0 (mkA (Some false) 0 0 false false).
 
 (* ------------------------------------------------------------------ *)
 (* uv__check_before_write and its two callers *)
